@@ -546,10 +546,30 @@ def run_check(prop, modname, tier, seed, jobs, meta, nproc=None, wall_budget_s=N
             results.append(run_job(s))
     else:
         ctx = multiprocessing.get_context("fork")
+        # after a violation that replayed against the real code the verdict is settled (exit 1): the remaining jobs get a
+        # grace period and are then terminated, so that a broken tree is reported in minutes rather than after every
+        # hard query ran into its timeout.  On a tree without violations nothing is ever cut short.
+        grace = float(os.environ.get("PSX_GRACE_S", "60" if tier == "quick" else "300"))
+        deadline = None
         with ctx.Pool(min(nproc, len(specs)), maxtasksperchild=8) as pool:
-            for r in pool.imap_unordered(run_job, specs, chunksize=1):
+            it = pool.imap_unordered(run_job, specs, chunksize=1)
+            while len(results) < len(specs):
+                try:
+                    r = it.next(timeout=5)
+                except multiprocessing.TimeoutError:
+                    if deadline is not None and time.time() > deadline:
+                        pool.terminate()
+                        break
+                    continue
+                except StopIteration:
+                    break
                 results.append(r)
-    return finish(prop, tier, seed, results, meta, time.time() - t0, extra_coverage={"engine_selftests": st}, extra_errors=st_errors)
+                if deadline is None and r.get("violations"):
+                    deadline = time.time() + grace
+    extra = {"engine_selftests": st}
+    if len(results) < len(specs):
+        extra["jobs_terminated_after_confirmed_violation"] = len(specs) - len(results)
+    return finish(prop, tier, seed, results, meta, time.time() - t0, extra_coverage=extra, extra_errors=st_errors)
 
 
 def finish(prop, tier, seed, results, meta, wall, extra_coverage=None, extra_errors=None, extra_violations=None):
